@@ -70,6 +70,10 @@ var zoneNames = []string{
 	"UTC", "America/New_York", "Europe/London", "Australia/Lord_Howe", "Asia/Kolkata", "Asia/Kathmandu",
 	"Pacific/Chatham", "America/St_Johns", "Pacific/Apia", "Asia/Tokyo", "America/Sao_Paulo", "Europe/Moscow",
 	"Africa/Casablanca", "America/Los_Angeles", "Pacific/Kiritimati",
+	// the tz database's legacy names: fixed-offset zones that look like abbreviations (MST, HST, EST
+	// never observe daylight saving), rule-only zones, and the Etc/ area with its inverted signs
+	"MST", "HST", "EST", "EST5EDT", "CST6CDT", "MST7MDT", "PST8PDT", "WET", "CET", "MET", "EET", "GMT",
+	"Etc/GMT+5", "Etc/GMT-14", "Etc/GMT+12", "America/Denver", "Pacific/Honolulu",
 }
 
 type zones struct {
@@ -271,7 +275,9 @@ func (e *env) parseResult(datetime, layout string) (coq string, t time.Time, ok 
 	_, off := t.Zone()
 	switch {
 	case t.Location() == time.UTC:
-	case strings.Contains(name, "/") && e.z.id(name) > 0:
+	case name != "" && name != "Local" && e.z.id(name) > 0 && t.Location() == e.z.locs[name]:
+		// the very *time.Location caches.GetTimeLocation hands out (a zone time.Parse fabricates for
+		// an abbreviation has the same name but is a different location)
 		l = "(LZone " + vh.CoqN(e.z.id(name)) + ")"
 		loc = e.z.locs[name]
 	default:
@@ -1078,7 +1084,7 @@ func main() {
 		{"2006-01-02 15:04:05 MST", "abbr"}, {time.RFC1123, "abbr"}, {time.UnixDate, "abbr"}, {"Jan 2, 2006 at 3:04pm (MST)", "abbr"},
 		{"2006-01-02 15:04:05 -0700 MST", "abbr"}, {"02 Jan 2006 15:04 MST", "abbr"},
 	}
-	for i := 0; i < o.Count(800, 24000); i++ {
+	for i := 0; i < o.Count(400, 12000); i++ {
 		x := expl[r.Pick(len(expl))]
 		src := pickZone()
 		t, class := g.instant(e.z.locs[src])
@@ -1105,35 +1111,40 @@ func main() {
 		if x.zone != "" && r.Chance(0.4) {
 			from = src // the zone whose abbreviation / offset the text carries
 		}
-		flag := []string{"true", "false", "", "T", "0"}[r.Pick(5)]
-		d := caseDesc{Fn: "layout", Datetime: text, Layout: x.layout, LayoutTZ: flag, FromTZ: from, ToTZ: to}
-		fb, _ := strconv.ParseBool(flag)
-		_, rdOff := rd.Zone()
-		wall := rd.Unix() + int64(rdOff)
-		switch {
-		case fb:
-			// the reading carries its zone: the instant time.Parse gives, whatever fromTZ is
-			outLoc := rd.Location()
-			if to != "" {
-				outLoc = e.z.locs[to]
+		// the same (text, layout) is called under both flag values in one process, in either order,
+		// and the first once more: every call is judged as if it were made alone
+		flags := [][]string{{"true", "false", "true"}, {"false", "true", "false"}, {"", "T", "0"}, {"T", ""}, {"0", "true"}}[r.Pick(5)]
+		sum.Hist(fmt.Sprintf("layout:sequence-same-text-%d-flags", len(flags)))
+		for _, flag := range flags {
+			d := caseDesc{Fn: "layout", Datetime: text, Layout: x.layout, LayoutTZ: flag, FromTZ: from, ToTZ: to}
+			fb, _ := strconv.ParseBool(flag)
+			_, rdOff := rd.Zone()
+			wall := rd.Unix() + int64(rdOff)
+			switch {
+			case fb:
+				// the reading carries its zone: the instant time.Parse gives, whatever fromTZ is
+				outLoc := rd.Location()
+				if to != "" {
+					outLoc = e.z.locs[to]
+				}
+				sum.Hist("layout:flag=true" + expectZoned(&d, rd.Unix(), outLoc))
+			case from == "" && to == "":
+				d.ExpectWall = i64(wall)
+				sum.Hist("layout:flag=false/no-zone-arguments")
+			default:
+				bind := from
+				if bind == "" {
+					bind = to
+				}
+				inst := dateIn(e.z.locs[bind], wall)
+				outLoc := e.z.locs[bind]
+				if to != "" {
+					outLoc = e.z.locs[to]
+				}
+				sum.Hist("layout:flag=false/bound" + expectZoned(&d, inst, outLoc))
 			}
-			sum.Hist("layout:flag=true" + expectZoned(&d, rd.Unix(), outLoc))
-		case from == "" && to == "":
-			d.ExpectWall = i64(wall)
-			sum.Hist("layout:flag=false/no-zone-arguments")
-		default:
-			bind := from
-			if bind == "" {
-				bind = to
-			}
-			inst := dateIn(e.z.locs[bind], wall)
-			outLoc := e.z.locs[bind]
-			if to != "" {
-				outLoc = e.z.locs[to]
-			}
-			sum.Hist("layout:flag=false/bound" + expectZoned(&d, inst, outLoc))
+			e.run(d, true)
 		}
-		e.run(d, true)
 	}
 
 	// 4b. the functions called through schemas (lenient / strict twins, templates)
